@@ -21,6 +21,7 @@ EXPLANATION = (
     ' (R5, extended) the two encoders of a type write the same FIELD at each position; (R13) no function of the function crates is unconditionally self-recursive; (R14) Value::compile_const ends in an Err for the variants it does not encode and no compile_const result is unwrapped.'
     ' (R15) discriminant tables: the numeric tag each TypeTag/ValueKind/opcode writer emits is the tag the matching reader arm accepts for that same variant (writer table = reader table, no two variants swapped).'
     ' (R16) kind ladders over Value::Matrix<K> / Value::<K> whose catch-all arm panics name every element kind the Value enum has; (R17) constant codecs agree field by field: the named fields ConstElem::write_le writes are read by from_le and written by CompileConst::compile_const in the same order and width.'
+    " (R4, extended) the function-call arms of run_program agree on their effects: each records self.out from the function's out(); an arm that forgets it makes run_program return the previous instruction's value."
 )
 
 EVALUATORS = {
@@ -405,6 +406,33 @@ def run(F, rep, tier):
                             rep.check(okk, "C06-R4", "run_program:%s:argument-order" % pt[1].split("::")[-1],
                                       "run_program builds %s from the instruction fields in order %s, the instruction carries them as %s" % (pc, used, regs))
         rep.floor("C06-R4", "FunctionArgs constructions in run_program", n_args, 3)
+        # sibling agreement of the function-call arms: every *Op arm that builds a function also solves it (or not, like its siblings), records `self.out` from the
+        # function's out() and stores nothing else - the result of run_program is self.out, so an arm that forgets it returns the previous instruction's value
+        eff = {}
+        for m in find(run[0]["body"], "match"):
+            for a in m[2]:
+                pt = a[0]
+                if pt[0] == "pstruct" and pt[1].startswith("DecodedInstr::") and any(f[0] == "fxn_id" for f in pt[2]):
+                    v = pt[1].split("::")[-1]
+                    ok_arm = [x for x in find(a[2], "match")]
+                    acts = set()
+                    for x in walk(a[2]):
+                        if x[0] == "assign" and render(x[1]).replace(" ", "") == "self.out":
+                            acts.add("self.out=" + re.sub(r"\s", "", render(x[2])))
+                        if x[0] == "mcall" and x[2] in ("solve",):
+                            acts.add("solve()")
+                        if x[0] == "assign" and re.match(r"^self\.registers\[", render(x[1])):
+                            acts.add("registers[..]=")
+                    eff[v] = acts
+        rep.floor("C06-R4", "function-call opcode arms in run_program", len(eff), 5)
+        if eff:
+            from collections import Counter
+            common = Counter(frozenset(v) for v in eff.values()).most_common(1)[0][0]
+            for v, acts in sorted(eff.items()):
+                okk = acts == set(common) and any(x.startswith("self.out=") and "out()" in x for x in acts)
+                rep.check(okk, "C06-R4", "run_program:%s:records-result" % v if okk else "run_program:%s:effects-%s" % (v, re.sub(r"\W+", "-", "+".join(sorted(acts)) or "none")[:50]),
+                          "run_program's %s arm performs %s while its sibling arms perform %s: the value run_program returns (self.out) is not this instruction's result when a %s is the last "
+                          "instruction of the program" % (v, sorted(acts), sorted(common), v), "Interpreter::run_program (mech_interpreter.lib)", sample={"arm": v, "effects": sorted(acts)})
 
     # ---------- R5 constant encoders: the two encoders of a type agree; byte-length prefixes measure the bytes they precede
     encs = {}
